@@ -10,7 +10,9 @@ FF_GRID = [0, 1, 14, 15, 29]
 FRAC_GRID = [[5], [0], [0, 0, 1], [0, 0, 0, 5], [3], [2, 9], [1, 2, 3, 4], [9, 9, 9, 9, 9, 9, 9],
              [0, 0, 0, 0, 0, 0, 1], [1, 2, 3, 4, 5, 6, 7, 8, 9], [9] * 12, [0] * 6 + [9], [3] * 20, [1, 0, 0]]
 WORDS = ["hello", "world", "caption", "The quick", "brown fox", "it's", "100%", "naïve", "♪", "[music]",
-         "- hi", "42", "x", "a b c", "Olá", "7 up"]
+         "- hi", "42", "x", "a b c", "Olá", "7 up",
+         # characters str.splitlines() cuts at but the readers (utils.split_lines) must not: inside a text line
+         "a\x0bb", "n\x85l", "l\u2028s", "p\u2029s", "f\x0cf", "f\x1cs"]
 FPS_GRID = [None, None, (0, 25, []), (0, 23, [9, 7, 6]), (0, 29, [9, 7]), (0, 30, []), (0, 24, []), (0, 50, []),
             (0, 60, []), (0, 25, [0]), (0, 29, [9, 7, 0]), (1, 25, []), (0, 12, [5]), (0, 15, []), (0, 0, [5]),
             (0, 119, [8, 8]), (0, 1, [])]
